@@ -1,1 +1,3 @@
 import BufGen.AstFacts
+import BufGen.ConstsC08
+import BufGen.RuleTables
